@@ -836,11 +836,13 @@ def body_pair(rng, ka, kb, small=True):
                     if ok_coords(b):
                         return (a, b), "on-face"
             else:
-                apex = add(f[0], mul(_reduce(n), rng.choice((F(1, 2), F(1), F(1, 4)))))
+                inward = rng.random() < 0.5       # apex outside: the bodies touch in (part of) the face; inside: they overlap and
+                                                   # the common face part belongs to the boundary of both
+                apex = add(f[0], mul(_reduce(n), rng.choice((F(1, 2), F(1), F(1, 4))) * (-1 if inward else 1)))
                 apex = add(apex, mul(sub(f[1], f[0]), F(1, 2)))
                 b = K.hull3d(base + [apex])
                 if b and ok_coords(b):
-                    return (a, b), "on-face"
+                    return (a, b), "on-face/overlapping" if inward else "on-face"
     return (a, rand_obj(rng, kb, small)), "random"
 
 
